@@ -1,7 +1,7 @@
 """Harness metadata of the in-flight table overlays (tarpc_overlay_sift.rs / tarpc_overlay_cift.rs)."""
 import os
 import kprop
-from vlib import inject_server_table_overlay, inject_client_table_overlay
+from vlib import inject_server_table_overlay, inject_client_table_overlay, inject_exec_overlay
 
 SYM_S = ["which operation at each step: a request arrives (any deadline: u16 s + ns, past or future) / Cancel / a response is written / time passes (any u16 s) and expirations are polled",
          "two symbolic u64 ids (possibly equal) the operations pick from", "the clock"]
@@ -23,6 +23,11 @@ SERVER = {"sift_steps2": ms(2, 3, 2), "sift_steps3": ms(3, 3)}
 CLIENT = {"cift_steps2": mc(2, 3, 2), "cift_steps3": mc(3, 3),
           "cift_routing_out_of_order": {"desc": "two calls outstanding (distinct symbolic ids): a reply for an id never issued is ignored; the second call's reply completes only the second call; a duplicate of it is ignored; then the first call's reply completes the first; table and timers end empty",
                                         "symbolic": ["three distinct u64 ids", "three u32 bodies"], "bounds": "2 inserts + 4 replies, unwind 4", "covers": 2}}
+EXEC = {"exec_dropped_without_execute": {"desc": "the application drops an InFlightRequest without executing it: exactly one cancellation carrying that request's own id reaches the channel's cancellation queue (so the channel releases the table entry and timer), and no response is buffered",
+                                         "symbolic": ["request id (u64)", "handler body (u32, unused on this path)"], "bounds": "one request, one drop; unwind 5", "covers": 4, "min_covers_sat": 1}}
+FUNCS_E = ["tarpc::server::ResponseGuard::drop + drop glue of tarpc::server::InFlightRequest<u32, u32>", "tarpc::cancellations::{cancellations, RequestCancellation::cancel, CanceledRequests::poll_recv}"]
+ASSUMPTIONS_E = ["handler-side harness is a child module of `server` in the scratch copy; under cfg(kani) only, tokio's mpsc in server.rs / cancellations.rs is the waker-less array model (native replay: real tokio channels)",
+                 "InFlightRequest::execute itself (Abortable + Instrumented + the handler future) was encoded too (overlay/tarpc_overlay_exec.rs: dropped after k polls, completes, aborted) but no execute harness finishes within 15 min; they are present in the overlay, not registered, and nothing is claimed about execute"]
 FUNCS_S = ["tarpc::server::in_flight_requests::InFlightRequests::{start_request, cancel_request, remove_request, poll_expired, len}"]
 FUNCS_C = ["tarpc::client::in_flight_requests::InFlightRequests::<u32>::{insert_request, complete_request, cancel_request, poll_expired, complete_all_requests, len, is_empty}"]
 ASSUMPTIONS = [
@@ -48,3 +53,10 @@ def run_tables(pid, tier, s, server=None, client=None, timeout_s=3000, harness_t
                                      replay_kw={"as_test": [], "rustflags": "--cfg verif_replay", "test_name": "verif_replay_entry_cift"})
         recs.update(r); viol += v; known += k; inc += i; wall += w
     return recs, viol, known, inc, wall
+
+
+def run_exec(pid, tier, s, timeout_s=1500, harness_timeout=600):
+    """Handler side (ResponseGuard): injects the exec overlay and decides its registered harness."""
+    inject_exec_overlay(s)
+    return kprop.decide(pid, tier, s, "overlay-exec", dict(EXEC), cwd=os.path.join(s.repo, "tarpc"), timeout_s=timeout_s, harness_timeout=harness_timeout,
+                        replay_kw={"as_test": [], "rustflags": "--cfg verif_replay", "test_name": "verif_replay_entry_exec"})
